@@ -15,6 +15,10 @@ FK = {
     "opt": (f"::core::option::Option<{REC}>", lambda tag, s: f"::core::option::Option::Some({REC}::new({tag}, {s}))" if s % 2 else "::core::option::Option::None"),
     "box": (f"::std::boxed::Box<{REC}>", lambda tag, s: f"::std::boxed::Box::new({REC}::new({tag}, {s}))"),
     "pair": (f"({REC}, {REC})", lambda tag, s: f"({REC}::new({tag}, {s}), {REC}::new({tag}, {s + 500}))"),
+    # Copy types with a hand-written, call-recording Clone (used when the type derives Copy as well)
+    "recc": ("::dxrt::RecC", lambda tag, s: f"::dxrt::RecC::new({tag}, {s})"),
+    "paircc": ("(::dxrt::RecC, u8)", lambda tag, s: f"(::dxrt::RecC::new({tag}, {s}), {s % 100}u8)"),
+    "optc": ("::core::option::Option<::dxrt::RecC>", lambda tag, s: f"::core::option::Option::Some(::dxrt::RecC::new({tag}, {s}))" if s % 2 else "::core::option::Option::None"),
     "T": ("T", lambda tag, s: f"{REC}::new({tag}, {s})"),
     "vecT": ("::std::vec::Vec<T>", lambda tag, s: "vec![" + ", ".join(f"{REC}::new({tag}, {s * 10 + k})" for k in range(1 + s % 2)) + "]"),
     "u8": ("u8", lambda tag, s: f"{s % 200}u8"),
@@ -29,7 +33,11 @@ def concrete(kind):
 def gen_spec(rng, kind=None):
     kind = kind or rng.choice(["struct", "enum", "enum"])
     generic = rng.random() < 0.3
+    # Copy derived next to Clone (either order): `clone` must still be field-wise
+    copy = rng.choice(["before", "after"]) if rng.random() < 0.2 else None
     pool = ["rec", "rec", "vec", "opt", "box", "pair", "u8", "string"] + (["T", "vecT"] if generic else [])
+    if copy:
+        pool = ["recc", "recc", "paircc", "optc", "u8"] + (["T"] if generic else [])
     nv = 1 if kind == "struct" else rng.randint(1, 4)
     variants = []
     tag = 0
@@ -47,12 +55,13 @@ def gen_spec(rng, kind=None):
     for vi, v in enumerate(variants):
         for r in range(2 if v["fields"] else 1):
             vals.append((vi, len(vals) + 1))
-    return {"kind": kind, "variants": variants, "generic": generic, "vals": vals, "entry": rng.choice(["attr", "derive"])}
+    return {"kind": kind, "variants": variants, "generic": generic, "vals": vals, "entry": rng.choice(["attr", "derive"]), "copy": copy}
 
 
 def type_text(spec, control=False):
     g = "<T>" if spec["generic"] else ""
-    head = "#[::derive_ex::derive_ex(Clone)]\n" if spec["entry"] == "attr" else "#[derive(::derive_ex::Ex)]\n#[derive_ex(Clone)]\n"
+    tl = {None: "Clone", "before": "Copy, Clone", "after": "Clone, Copy"}[spec.get("copy")]
+    head = f"#[::derive_ex::derive_ex({tl})]\n" if spec["entry"] == "attr" else f"#[derive(::derive_ex::Ex)]\n#[derive_ex({tl})]\n"
     if control:
         head = "#[derive(Clone)]\n"
     bodies = []
@@ -204,6 +213,20 @@ def core(rng):
     specs.append({"kind": "enum", "generic": True, "entry": "attr", "variants": [
         {"style": "tuple", "fields": [{"kind": "T", "tag": 0}]}, {"style": "named", "fields": [{"kind": "vecT", "tag": 1}, {"kind": "T", "tag": 2}]}],
         "vals": [(0, 1), (0, 2), (1, 3), (1, 4)]})
+    # Copy listed before / after Clone, struct and enum, concrete and generic
+    for copy in ("before", "after"):
+        for entry in ("attr", "derive"):
+            specs.append({"kind": "struct", "generic": False, "entry": entry, "copy": copy,
+                          "variants": [{"style": "tuple", "fields": [{"kind": "recc", "tag": 0}, {"kind": "u8", "tag": 1}, {"kind": "recc", "tag": 2}]}], "vals": [(0, 1), (0, 2)]})
+            specs.append({"kind": "enum", "generic": False, "entry": entry, "copy": copy, "variants": [
+                {"style": "unit", "fields": []}, {"style": "named", "fields": [{"kind": "recc", "tag": 0}, {"kind": "optc", "tag": 1}]},
+                {"style": "tuple", "fields": [{"kind": "paircc", "tag": 2}]}], "vals": [(0, 1), (1, 2), (1, 3), (2, 4), (2, 5)]})
+            specs.append({"kind": "struct", "generic": True, "entry": entry, "copy": copy,
+                          "variants": [{"style": "named", "fields": [{"kind": "T", "tag": 0}, {"kind": "recc", "tag": 1}]}], "vals": [(0, 1), (0, 2)]})
+    # more than ten fields (member names / indices whose text order differs from the declaration order)
+    for style in ("tuple", "named"):
+        specs.append({"kind": "struct", "generic": False, "entry": "attr", "variants": [{"style": style, "fields": [{"kind": "rec", "tag": i} for i in range(12)]}],
+                      "vals": [(0, 1), (0, 2)]})
     return specs
 
 
@@ -269,7 +292,8 @@ def run(rep, tier, rng):
             break
     rep.canary = any(b[0].startswith("clone_from") for b in check_case(ok.meta["spec"], ev))
     rep.rule = ("structs/enums (all variant kinds, 0-4 fields, generic and concrete) whose fields are call-recording types (Rec, "
-                "Vec<Rec>, Option<Rec>, Box<Rec>, (Rec,Rec), T, Vec<T>) mixed with plain ones; clone of every value and clone_from "
+                "Vec<Rec>, Option<Rec>, Box<Rec>, (Rec,Rec), T, Vec<T>) mixed with plain ones, 12-field structs, and types deriving "
+                "Copy next to Clone (both orders) over Copy field types with a recording Clone (RecC); clone of every value and clone_from "
                 "over ALL ordered pairs of values incl. every pair of distinct variants; the recorded clone/clone_from/drop trace "
                 "is compared with the concatenation of reference traces of the field types' own Clone calls (hand-written), the "
                 "result dumps with the source, and constructed == dropped is checked at the end. evaluations = clone + "
